@@ -340,3 +340,59 @@ B("c15-common-from-all-terms", "C15", "R15.4", (MX, "            self.common = C
 B("c15-response-always-built", "C15", "R15.5", (MX, "        if self.model.response:\n            self.response = ResponseMatrix(self.model.response)\n            self.response.evaluate(data, env)", "        self.response = ResponseMatrix(self.model.response)\n        if self.model.response:\n            self.response.evaluate(data, env)"))
 B("c15-prop-columns-swapped", "C15", "R15.6", (TR, "        return np.vstack([self.successes, self.trials]).T", "        return np.vstack([self.trials, self.successes]).T"))
 S("c15-benign-message", "C15", (TT, '"The response term must be of class Term, not {type(term)}."', '"The response must be a Term, not {type(term)}."'))
+
+# ------------------------------------------------------------------ C04
+B("c04-interaction-loops-exchanged", "C04", "R4.1", (UT, "    for j1 in range(x.shape[1]):\n        for j2 in range(y.shape[1]):\n            l.append(x[:, j1] * y[:, j2])", "    for j2 in range(y.shape[1]):\n        for j1 in range(x.shape[1]):\n            l.append(x[:, j1] * y[:, j2])"))
+B("c04-labels-product-reversed", "C04", "R4.1", (TT, "            labels = [\":\".join(str_tuple) for str_tuple in list(itertools.product(*labels))]", "            labels = [\":\".join(str_tuple) for str_tuple in list(itertools.product(*labels[::-1]))]"))
+B("c04-set-data-reversed-fold", "C04", "R4.1", (TT, "            self.data = reduce(get_interaction_matrix, [c.value for c in self.components])", "            self.data = reduce(get_interaction_matrix, [c.value for c in reversed(self.components)])"))
+B("c04-labels-other-collection", "C04", "R4.1", (TT, "            labels = []\n            for component in self.components:\n                labels.append(component.labels)", "            labels = []\n            for component in sorted(self.components, key=lambda c: str(c.name)):\n                labels.append(component.labels)"))
+B("c04-treatment-label-drops-last", "C04", "R4.2", (CT, "        levels = levels[:reference] + levels[reference + 1 :]\n        labels = [str(level) for level in levels]\n        return ContrastMatrix(contrast, labels)", "        levels = levels[:-1]\n        labels = [str(level) for level in levels]\n        return ContrastMatrix(contrast, labels)"))
+B("c04-sum-label-other-index", "C04", "R4.2", (CT, "        levels = levels[:omit_index] + levels[omit_index + 1 :]", "        levels = levels[:-1]"))
+B("c04-codes-from-other-categorical", "C04", "R4.2", (VR, "            value = self.contrast_matrix.matrix[x.codes]", "            value = self.contrast_matrix.matrix[pd.Categorical(x.astype(str)).codes]"))
+B("c04-labels-sorted", "C04", "R4.2", (VR, "            labels = [f\"{self.name}[{label}]\" for label in self.contrast_matrix.labels]", "            labels = [f\"{self.name}[{label}]\" for label in sorted(self.contrast_matrix.labels)]"))
+B("c04-matrix-built-from-other-list", "C04", "R4.2", (CL, "            self.contrast_matrix = treatment.code_with_intercept(self.levels)\n        else:\n            self.contrast_matrix = treatment.code_without_intercept(self.levels)\n\n        self.value = self.contrast_matrix.matrix[x.codes]",
+                                                       "            self.contrast_matrix = treatment.code_with_intercept(sorted(self.levels, reverse=True))\n        else:\n            self.contrast_matrix = treatment.code_without_intercept(self.levels)\n\n        self.value = self.contrast_matrix.matrix[x.codes]"))
+B("c04-levels-first-seen", "C04", "R4.3", (VR, "            categories = sorted(np.unique(x).tolist())", "            categories = list(pd.unique(x))"))
+B("c04-box-set-order", "C04", "R4.3", (CL, "            categories = sorted(list(set(data)))", "            categories = list(set(data))"))
+B("c04-box-levels-resorted", "C04", "R4.3", (CL, "        else:\n            categories = levels\n", "        else:\n            categories = sorted(levels)\n"))
+B("c04-numeric-scaled", "C04", "R4.4", (VR, "        elif isinstance(x, pd.Series):\n            self.value = x.values\n        else:\n            raise ValueError(f\"Variable is of an unrecognized type ({type(x)}).\")\n\n    def eval_categoric", "        elif isinstance(x, pd.Series):\n            self.value = x.values - x.values.min()\n        else:\n            raise ValueError(f\"Variable is of an unrecognized type ({type(x)}).\")\n\n    def eval_categoric"))
+B("c04-new-numeric-sorted", "C04", "R4.4", (CL, "    def eval_new_data_numeric(self, x):\n        return np.asarray(x)", "    def eval_new_data_numeric(self, x):\n        return np.sort(np.asarray(x))"))
+B("c04-component-shared", "C04", "R4.5", (TT, "            return Model(self, Term(*deepcopy(self.components), *deepcopy(other.components)))", "            return Model(self, Term(*self.components, *other.components))"))
+B("c04-dataframe-labels-reversed", "C04", "R4.6", (MX, "        colnames = [term.labels for term in self.terms.values()]", "        colnames = [term.labels for term in list(self.terms.values())[::-1]]"))
+S("c04-benign-redundant-sorted-removed", "C04", (VR, "            categories = sorted(np.unique(x).tolist())", "            categories = np.unique(x).tolist()"))
+S("c04-benign-comprehension-for-loops", "C04", (UT, "    for j1 in range(x.shape[1]):\n        for j2 in range(y.shape[1]):\n            l.append(x[:, j1] * y[:, j2])\n    return np.column_stack(l)", "    return np.column_stack([x[:, j1] * y[:, j2] for j1 in range(x.shape[1]) for j2 in range(y.shape[1])])"))
+
+# ------------------------------------------------------------------ C05
+B("c05-khatri-rao-swapped-training", "C05", "R5.1", (TT, "        self.data = linalg.khatri_rao(Ji.T, Xi.T).T  # Zi", "        self.data = linalg.khatri_rao(Xi.T, Ji.T).T  # Zi"))
+B("c05-label-loops-exchanged", "C05", "R5.1", (TT, "        labels = [f\"{level}|{group}\" for group in self.factor.labels for level in levels]", "        labels = [f\"{level}|{group}\" for level in levels for group in self.factor.labels]"))
+B("c05-groups-product-reversed", "C05", "R5.1", (TT, "        self.groups = [\":\".join(s) for s in list(itertools.product(*groups))]", "        self.groups = [\":\".join(s) for s in list(itertools.product(*groups[::-1]))]"))
+B("c05-factor-reduced-coding", "C05", "R5.2", (TT, "        self.factor.set_data(True)  # Factor is a categorical term that always spans the intercept", "        self.factor.set_data(spans_intercept)"))
+B("c05-forced-categoric-deleted", "C05", "R5.2", (TT, "            component.kind = \"categoric\"\n\n        # Store the type of the components.", "\n        # Store the type of the components."))
+B("c05-new-column-first", "C05", "R5.3", (TT, "            Ji = np.column_stack([Ji, np.zeros((Ji.shape[0], 1), dtype=\"int\")])\n            Ji[all_zeros, -1] = 1", "            Ji = np.column_stack([np.zeros((Ji.shape[0], 1), dtype=\"int\"), Ji])\n            Ji[all_zeros, 0] = 1"))
+B("c05-same-factor-conjunct-dropped", "C05", "R5.4", (TT, "                    if t.factor == term.factor and isinstance(t.expr, Intercept):", "                    if isinstance(t.expr, Intercept):"))
+B("c05-encoding-starts-false", "C05", "R5.4", (TT, "        for term in self.group_terms:\n            encoding = True", "        for term in self.group_terms:\n            encoding = False"))
+B("c05-implicit-intercept-not-added", "C05", "R5.5", (TT, "            self.common_terms.insert(0, Intercept())", "            pass"))
+B("c05-negation-keeps-intercept", "C05", "R5.5", (TT, "            self.common_terms.remove(Intercept())\n            self.common_terms.remove(NegatedIntercept())", "            self.common_terms.remove(NegatedIntercept())"))
+B("c05-term-or-skips-intercepts-for-sum", "C05", "R5.5", (TT, "            return Model(*intercepts, *slopes)", "            return Model(*slopes)"), note="intercepts computed but unused: count of GroupSpecificTerm(Intercept() sites unchanged -> may not fire")
+VARIANTS.pop()
+B("c05-term-or-no-implicit-intercept", "C05", "R5.5", (TT, "            terms = [GroupSpecificTerm(Intercept(), other), GroupSpecificTerm(self, other)]", "            terms = [GroupSpecificTerm(self, other)]"))
+B("c05-pairing-first-factor-only", "C05", "R5.5", (TT, "            products = product(self.common_terms, other.common_terms)\n            terms = [GroupSpecificTerm(deepcopy(p[0]), p[1]) for p in products]", "            products = product(self.common_terms, other.common_terms[:1])\n            terms = [GroupSpecificTerm(deepcopy(p[0]), p[1]) for p in products]"))
+B("c05-effect-shared-across-factors", "C05", "R5.6", (TT, "                GroupSpecificTerm(deepcopy(p[0]), p[1]) for p in product([self], other.common_terms)", "                GroupSpecificTerm(p[0], p[1]) for p in product([self], other.common_terms)"))
+S("c05-benign-comment", "C05", (TT, "        # If a row contains ALL zeroes, then it indicates that is a new, unseen, group.", "        # A row of zeros marks an unseen group."))
+
+# ------------------------------------------------------------------ C08
+B("c08-reference-first-row", "C08", "R8.2", (TR, "        categories = sorted(x.unique().tolist())\n        success = categories[0]", "        success = x.iloc[0]"))
+B("c08-center-first-value", "C08", "R8.2", (TR, "            self.mean = np.mean(x)\n            self.params_set = True\n        return x - self.mean", "            self.mean = x[0]\n            self.params_set = True\n        return x - self.mean"))
+B("c08-scale-cumsum", "C08", "R8.2", (TR, "            self.std = np.std(x)", "            self.std = np.std(np.cumsum(x))"))
+B("c08-knots-from-head", "C08", "R8.2", (TR, "                inner_knots = np.percentile(x, 100 * np.asarray(knot_quantiles))", "                inner_knots = np.percentile(x[:50], 100 * np.asarray(knot_quantiles))"))
+B("c08-levels-first-seen", "C08", "R8.1", (CL, "            categories = sorted(np.unique(x).tolist())", "            categories = list(dict.fromkeys(x))"))
+B("c08-binary-default-first-seen", "C08", "R8.1", (TR, "        categories = sorted(x.unique().tolist())", "        categories = x.unique().tolist()"))
+B("c08-column-by-position", "C08", "R8.3", (VR, "        x = data_mask[self.name]\n        if is_numeric_dtype(x):", "        x = data_mask.iloc[:, list(data_mask.columns).index(self.name)]\n        if is_numeric_dtype(x):"))
+B("c08-first-column-default", "C08", "R8.3", (CL, "            name = self.call.args[1].name\n            values = data_mask[name]", "            name = data_mask.columns[0]\n            values = data_mask[name]"))
+B("c08-size-from-index-label", "C08", "R8.4", (CL, "            x.set_size(len(data_mask.index))", "            x.set_size(data_mask.index[-1] + 1)"))
+B("c08-mask-before-selection", "C08", "R8.4",
+  (MX, "    cols_to_select = description.var_names.intersection(set(data.columns))\n    data = data[list(cols_to_select)]\n\n    incomplete_rows = data.isna().any(axis=1)",
+   "    incomplete_rows = data.isna().any(axis=1)\n    cols_to_select = description.var_names.intersection(set(data.columns))\n    data = data[list(cols_to_select)]\n"))
+B("c08-rows-sorted", "C08", "R8.5", (MX, "            data = data[~incomplete_rows]\n", "            data = data[~incomplete_rows]\n            data = data.sort_index()\n"))
+B("c08-mask-from-other-frame", "C08", "R8.5", (MX, "            data = data[~incomplete_rows]\n", "            data = data.reset_index(drop=True)\n            data = data[~incomplete_rows]\n"))
+S("c08-benign-percentile", "C08", (TR, "            lower_bound = np.min(x)", "            lower_bound = np.percentile(x, 0)"))
